@@ -86,17 +86,21 @@ def mutants(stmts, rng, quick):
                     w.text = s.text + " extraN"
                     out.append(("surplus_end_name:" + s.kind, "line %d %r -> %r" % (i + 1, s.text, w.text),
                                 stmts[:i] + [w] + stmts[i + 1:]))
-    # parentheses: one deletion and one insertion per statement that has parentheses
+    # parentheses, per statement that has any: the first '(' and the last ')' deleted, each of them doubled,
+    # plus one random deletion and one random doubling
     for i, s in enumerate(stmts):
         pos = outside_literal_positions(s.text)
         pp = [p for p in pos if s.text[p] in "()"]
-        if pp:
-            p = rng.choice(pp)
+        if not pp:
+            continue
+        dels = {pp[0], pp[-1], rng.choice(pp)}
+        dbls = {pp[0], pp[-1], rng.choice(pp)}
+        for p in sorted(dels):
             d = s.copy()
             d.text = s.text[:p] + s.text[p + 1:]
             out.append(("delete_paren:" + (s.kind or s.role), "line %d: %r -> %r" % (i + 1, s.text, d.text),
                         stmts[:i] + [d] + stmts[i + 1:]))
-            p = rng.choice(pp)
+        for p in sorted(dbls):
             a = s.copy()
             a.text = s.text[:p] + s.text[p] + s.text[p:]
             out.append(("double_paren:" + (s.kind or s.role), "line %d: %r -> %r" % (i + 1, s.text, a.text),
